@@ -112,11 +112,13 @@ def step_budget(tool, opts, data):
 class Env:
     """The I/O environment of one run (what the scheduler decides)."""
     __slots__ = ("in_kind", "out_kind", "in_chunk", "out_chunk", "in_seed", "out_seed", "out_pre",
-                 "unbuf", "names", "spell", "late_opts", "inplace")
+                 "unbuf", "names", "spell", "late_opts", "inplace", "opt", "envseed")
 
     def __init__(self, in_kind="path", out_kind="path", in_chunk="whole", out_chunk="whole",
                  in_seed=0, out_seed=0, out_pre=0, unbuf=False, names=0, spell=0, late_opts=False,
-                 inplace=False):
+                 inplace=False, opt=0, envseed=0):
+        self.opt = opt              # interpreter optimisation level (python -O / -OO)
+        self.envseed = envseed      # seed of the process environment variables (0 = inherited)
         self.inplace = inplace      # output written over the input file (veftopng reads first)
         self.unbuf = unbuf          # the interpreter runs with -u / PYTHONUNBUFFERED=1
         self.names = names          # file-name style (NAME_STYLES)
@@ -139,6 +141,19 @@ class Env:
                 self.in_chunk if self.in_kind != "path" else "-",
                 ("unbuffered" if self.unbuf else self.out_chunk) if self.out_kind != "path"
                 else ("pre%d" % self.out_pre if self.out_pre else "-"))
+
+
+def env_vars(seed):
+    """Environment variables of the simulated process (terminal size, TERM, TMPDIR, HOME, TZ,
+    locale): nothing an image may depend on."""
+    if not seed:
+        return {}
+    import random
+    r = random.Random(seed)
+    return {"COLUMNS": str(r.choice((1, 4, 5, 20, 80, 400))), "LINES": str(r.choice((1, 3, 24, 200))),
+            "TERM": r.choice(("dumb", "xterm", "")), "TMPDIR": r.choice(("/simfs/tmp", "/nonexistent", "/tmp")),
+            "HOME": r.choice(("/", "/nonexistent", "/simfs/home")), "TZ": r.choice(("UTC", "JST-9", "PST8PDT")),
+            "LANG": r.choice(("C", "POSIX", "C.UTF-8", "en_US.UTF-8")), "NO_COLOR": r.choice(("", "1"))}
 
 
 def env_valid(tool, env):
@@ -201,7 +216,7 @@ def simulate(tool, opts, data: bytes, env: Env, damaged=(), boundaries=(), budge
     use_stdin = env.in_kind not in ("path", "fifo")
     w = World(stdin_data=data if use_stdin else None, stdin_sched=sin, stdout_sched=sout,
               stdin_damaged=damaged if use_stdin else (), vcwd=VCWD_OF_PROCESS,
-              stdout_unbuffered=env.unbuf)
+              stdout_unbuffered=env.unbuf, environ=env_vars(env.envseed))
     with w:
         if env.in_kind == "fifo":
             w.fs.fifos[w._vpath(inp, writing=True)] = (bytes(data), sin, list(damaged))
@@ -210,7 +225,7 @@ def simulate(tool, opts, data: bytes, env: Env, damaged=(), boundaries=(), budge
         if env.out_kind == "path" and env.out_pre and not env.inplace:
             import random as _r
             w.fs.put(w._vpath(outp, writing=True), _r.Random(env.out_seed).randbytes(env.out_pre))
-        o = run_tool(w, tool, argv, budget, wall)
+        o = run_tool(w, tool, argv, budget, wall, env.opt)
     r = Run()
     r.tool, r.argv, r.outcome, r.steps, r.budget = tool, argv, o, o.steps, budget
     if env.out_kind == "path":
